@@ -103,9 +103,19 @@ def reload_patterns(rng, tier):
                     for t in texts:
                         lines += [f"sim.load {rvasmgen.hx(t)}", "sim.snap"]
                     for _ in range(12):
-                        lines += ["sim.step", "sim.done", "sim.snap"]
-                    lines += ["sim.run 300", "sim.done", "sim.snap", "sim.step", "sim.snap"]
+                        lines += ["sim.step", "sim.done", "sim.started", "sim.snap"]
+                    lines += ["sim.run 300", "sim.done", "sim.started", "sim.snap", "sim.step", "sim.snap"]
                 yield Case("reload-patterns", lines, None, {"mode": kind, "loads": len(texts)})
+        if kind != "toy":
+            # a first step that FAULTS, then a corrected program: whatever `has_started` says afterwards, a load into a
+            # simulation that reports "not started" must give the state of a fresh simulation
+            for bad_first in ("lw x1, 0(x0)", "li a7, 5\necall", "sw x1, 4(x0)\nnop"):
+                for good in (RV_OK[0], RV_OK[2]):
+                    lines = [f"sim.new {kind} 1 - -", "sim.snap", f"sim.load {rvasmgen.hx(bad_first)}", "sim.snap", "sim.started"]
+                    for _ in range(6):
+                        lines += ["sim.step", "sim.started", "sim.snap"]
+                    lines += [f"sim.load {rvasmgen.hx(good)}", "sim.started", "sim.snap", "sim.run 300", "sim.done", "sim.snap"]
+                    yield Case("reload-patterns", lines, None, {"mode": kind, "loads": 2})
         for earlier, last in (TOY_SHARED if kind == "toy" else RV_SHARED):
             texts = list(earlier) + [last]
             if kind == "toy":
@@ -166,7 +176,7 @@ def oracle(c):
             stepped = True
             done_before = done is True
             if o.startswith("F") or " F " in o or o.startswith("X"):
-                return fails          # a faulting program: the exception propagates, nothing more is claimed
+                break                 # a faulting program: the exception propagates, nothing more is claimed about stepping
             was_done = done
             if l == "sim.step":
                 done = o == "ok 0"
@@ -193,6 +203,13 @@ def oracle(c):
     for l in c.lines[:last]:
         a.run(l)
     b.run(c.lines[0])
+    stepped = any(l == "sim.step" or l.startswith("sim.run") or l.startswith("toy.call") or l.startswith("toy.run") for l in c.lines[:last])
+    if stepped:
+        # step / run calls were made before the last load: the clause speaks about simulations that have NOT STARTED,
+        # which is what the simulation itself reports
+        started = a.toy.has_started if toy else a.sim.has_started
+        if started:
+            return fails
     oa, ob = a.run(c.lines[last]), b.run(c.lines[last])
     sa, sb = a.run(snap), b.run(snap)
     if oa != ob or sa != sb:
